@@ -13,7 +13,7 @@ from pycaption import CaptionSet, CaptionList, Caption, CaptionNode
 
 LANGS = ["en-US", "fr", "de"]
 WORDS = ["alpha", "beta", "gamma", "delta", "epsilon", "zeta", "eta", "theta"]
-KIND = {"text": 1, "style": 2, "break": 3}
+KIND = {"text": 1, "style": 2, "ustyle": 2, "break": 3}   # ustyle: a STYLE node whose content is {} (no span attributes)
 
 
 def tup(x):
@@ -36,6 +36,8 @@ def build(acs):
                     nodes.append(CaptionNode.create_text(n[1], layout_info=lay))
                 elif n[0] == "break":
                     nodes.append(CaptionNode.create_break(layout_info=lay))
+                elif n[0] == "ustyle":
+                    nodes.append(CaptionNode.create_style(n[1], {}, layout_info=lay))
                 else:
                     nodes.append(CaptionNode.create_style(n[1], {"italics": True}, layout_info=lay))
             lay = None if c["layout"] is None else geom.mk_layout(tup(c["layout"]))
@@ -124,6 +126,12 @@ def gen_capset(rng, units, nlangs=(1, 2), ncaps=(1, 3), levels=("lang", "cap", "
                     nodes.append(["style", True, nl])
                     nodes.append(["text", word, nl])
                     nodes.append(["style", False, nl])
+                elif span_layouts and 0.35 <= r < 0.5:
+                    # a style span WITHOUT a layout of its own: its text belongs to the caption's region
+                    kind = "style" if rng.random() < 0.8 else "ustyle"
+                    nodes.append([kind, True, None])
+                    nodes.append(["text", word, None])
+                    nodes.append([kind, False, None])
                 elif "node" in levels and bare_text_layouts and r < 0.6:
                     nodes.append(["text", word, lay()])
                 else:
@@ -131,3 +139,121 @@ def gen_capset(rng, units, nlangs=(1, 2), ncaps=(1, 3), levels=("lang", "cap", "
             lg["caps"].append({"layout": cl, "nodes": nodes})
         acs["langs"].append(lg)
     return acs
+
+
+# ---- DFXP tree model (coq/model/DfxpTree.v, request 1210) --------------------------------------------------------
+def word_ids(acs):
+    """word -> integer id, in document order"""
+    ids = {}
+    for lg in acs["langs"]:
+        for c in lg["caps"]:
+            for n in c["nodes"]:
+                if n[0] == "text":
+                    ids[n[1]] = len(ids)
+    return ids
+
+
+def w_dset(acs, transformed, ids):
+    """wire dset: the nodes of acs with the (already transformed, wire-form) layouts of `transformed` = (g, langs)"""
+    out = []
+    for lg, (ll, caps) in zip(acs["langs"], transformed[1]):
+        wcaps = []
+        for c, (cl, nodes) in zip(lg["caps"], caps):
+            wn = []
+            for n, (kind, nl) in zip(c["nodes"], nodes):
+                wn.append([KIND[n[0]], bool(n[1]) if n[0] in ("style", "ustyle") else False, n[0] == "style", nl,
+                           ids[n[1]] if n[0] == "text" else 0])
+            wcaps.append([cl, wn])
+        out.append([ll, wcaps])
+    return out
+
+
+def node_levels(nodes):
+    """per node index: (index of the node whose layout is the node-level layout of this text, or None).
+    Statement reading (DESIGN 7.0 ix): a text node's own layout, else the layout of the nearest enclosing STYLE span
+    that has one (proper nesting of start/end nodes)."""
+    stack, out = [], []
+    for i, n in enumerate(nodes):
+        if n[0] in ("style", "ustyle"):
+            if n[1]:
+                stack.append(i)
+            elif stack:
+                stack.pop()
+            out.append(None)
+        elif n[0] == "text":
+            src = None
+            if has_parts(n[-1]):
+                src = i
+            else:
+                for j in reversed(stack):
+                    if has_parts(nodes[j][-1]):
+                        src = j
+                        break
+            out.append(src)
+        else:
+            out.append(None)
+    return out
+
+
+def has_parts(l):
+    return l is not None and any(x is not None for x in tup(l)[:4])
+
+
+def written_span(nodes):
+    """per node index: index of the STYLE node whose <span> DFXPWriter has open when this node is written (the writer
+    never nests spans: a new span closes the open one, a style end closes whatever is open), or None"""
+    cur, out = None, []
+    for i, n in enumerate(nodes):
+        if n[0] in ("style", "ustyle"):
+            if n[1]:
+                if n[0] == "style" or (n[-1] is not None and (has_parts(n[-1]) or bool(tup(n[-1])[4]))):
+                    cur = i
+            else:
+                cur = None
+            out.append(None)
+        else:
+            out.append(cur)
+    return out
+
+
+PCT_LAYOUTS = {
+    "L": (((10, 2), (10, 2)), ((80, 2), (20, 2)), None, (0, 2), None),
+    "C": (((20, 2), (60, 2)), ((60, 2), (30, 2)), ((1, 2), (2, 2), (3, 2), (4, 2)), (1, 0), None),
+    "S": (((30, 2), (5, 2)), None, None, (2, None), None),
+    "S2": (((45, 2), (45, 2)), ((40, 2), (12.5, 2)), None, None, None),
+    # exactly the DFXP default region (alignment start / after only): resolves to region "bottom"
+    "D": (None, None, None, (3, 2), None),
+    # an Alignment object with nothing set: a region without attributes, reads back as the defaults too
+    "D0": (None, None, None, (None, None), None),
+}
+
+
+def span_grid():
+    """exhaustive: {language layout present/absent} x {caption layout absent / equal to the language's / different}
+    x {span without own layout / with its own / with exactly the DFXP default (alignment start/after only) / with an
+    empty Alignment / equal to the caption's} x nesting depth 1-2 (inner span with / without own layout) x styled / unstyled
+    span; text inside and outside the span(s)."""
+    out = []
+    for lang in (None, "L"):
+        for cap in (None, "eq", "C"):
+            for styled in ("style", "ustyle"):
+                for s1 in (None, "S", "D", "D0", "eqC"):
+                    for depth, s2 in ((1, None), (2, None), (2, "S2")):
+                        ll = PCT_LAYOUTS["L"] if lang else None
+                        cl = None if cap is None else (PCT_LAYOUTS["L"] if cap == "eq" else PCT_LAYOUTS["C"])
+                        if s1 == "eqC":
+                            # node layout equal to the caption's (a separately built, equal Layout object)
+                            if cl is None:
+                                continue
+                            a = cl
+                        else:
+                            a = PCT_LAYOUTS[s1] if s1 else None
+                        b = PCT_LAYOUTS["S2"] if s2 else None
+                        inner_txt = b if b else a            # reader convention: a text carries the nearest region layout
+                        nodes = [["text", "out0", None], ["break", None], [styled, True, a], ["text", "in1", a]]
+                        if depth == 2:
+                            nodes += [["style", True, b], ["text", "deep", inner_txt], ["style", False, b], ["text", "in2", a]]
+                        nodes += [[styled, False, a], ["break", None], ["text", "out1", None]]
+                        out.append({"global": None, "langs": [{"name": "en-US", "layout": ll,
+                                                               "caps": [{"layout": cl, "nodes": nodes}]}]})
+    return out
